@@ -292,7 +292,8 @@ fn cmd_run(a: &Args) -> i32 {
         writeln!(out, "{}", json!({"begin": idx})).unwrap();
         out.flush().unwrap();
         let mut ev = json!({"ev":"decode","id":case["id"],"entry":entry,"s":case["s"],"bytes":case["bytes"],
-                            "limit":cap31(in_force),"origin":case["origin"]});
+                            "limit":cap31(in_force),"origin":case["origin"],
+                            "heavy": case.get("heavy").and_then(|h| h.as_bool()).unwrap_or(false)});
         // schema (parsed outside the measured region, but guarded)
         let schema = if entry == "container" || entry.starts_with("decompress") {
             None
